@@ -94,6 +94,33 @@ type seenCodec struct {
 	c plenccodec.Codec
 }
 
+// identityHolds reports whether, run alone, two successive CodecForType calls for t on one fresh
+// instance return the same object (decided once per type): only then is identity part of
+// "what the call returns when run alone".
+var identityCache = map[reflect.Type]bool{}
+
+func identityHolds(t reflect.Type) bool {
+	if v, ok := identityCache[t]; ok {
+		return v
+	}
+	ok := false
+	func() {
+		defer func() { recover() }()
+		var a, b plenccodec.Codec
+		sched.Suspend(func() {
+			p := NewPlenc(ref.Cfg{})
+			a, _ = p.CodecForType(t)
+			b, _ = p.CodecForType(t)
+		})
+		if a != nil && b != nil {
+			same, cmp := sameCodec(a, b)
+			ok = same && cmp
+		}
+	}()
+	identityCache[t] = ok
+	return ok
+}
+
 var seenCodecs []seenCodec
 var seenMu stdsync.Mutex // the free-running race pass calls the same operations from real goroutines
 
@@ -110,6 +137,9 @@ func sameCodec(a, b plenccodec.Codec) (same, comparable bool) {
 // against what the instance hands out now.
 func codecIdentity() (sig, detail string) {
 	for i, a := range seenCodecs {
+		if !identityHolds(a.t) {
+			continue
+		}
 		now, err := a.p.CodecForType(a.t)
 		if err != nil {
 			return "codec-identity:later-call-fails", fmt.Sprintf("CodecForType(%s) returned a codec during the run and %v afterwards", a.t, err)
